@@ -214,11 +214,12 @@ PROPS = {
     'C18': {
         'units': [static_list.jobs],
         'level': 'proof',
-        'technique': 'CBMC contracts over a Skolem heap (unbounded list length) on extracted static_list::push_back / remove / iterator++ / begin / empty; bounded CBMC pool companion incl. clear()',
+        'technique': 'CBMC contracts over a Skolem heap (unbounded list length) on extracted static_list::push_back / remove / iterator++ / begin / empty and on clear() cut at its loop boundary; bounded CBMC pool companion',
         'level_text': 'push_back, remove, begin, ++ and empty (real bodies, extracted each run) are proved for lists of ANY length: the list invariant is '
                       'assumed at the nodes the loop-free operation can reach plus a Skolem position and re-established for the new sequence, with frame. '
-                      'clear() (a loop over the whole list) and the interplay of all operations are checked on a pool of 5/6 nodes (every list, every order, one operation)',
-        'level_note': 'clear() is bounded only; size() = std::distance is trusted; that the registration objects\' destructors call remove on the right catalog is not checked',
+                      'clear() (a loop over the whole list) is proved by inductive base / step obligations at an arbitrary loop position; the interplay of all operations is '
+                      'cross-checked on a pool of 5/6 nodes (every list, every order, one operation)',
+        'level_note': 'the composition of clear()\'s base / step obligations relies on its loop skeleton (checked textually); size() = std::distance is trusted; that the registration objects\' destructors call remove on the right catalog is not checked',
         'design_ref': 'DESIGN.md section 6 C18, 2.7',
         'unverified': ['class_declaration_aux / method / definition_info constructors and destructors calling push_back / remove (templates)', 'real dlclose timing'],
         'assumptions': [],
